@@ -263,7 +263,17 @@ def run_C17(ctx, R):
     from .rules import cmpfold
     _per_config(ctx, R, lambda units, r: cmpfold.cmp1(units, r, unit_names=('cJSON_Utils.c',)))
     _scoped(ctx, R, _inl(out.out7), C17_ENTRIES, 3)
-    _per_config(ctx, R, _inl(utilsx.gen1))
+    def gen1(units, r):
+        # the inlined view is the one judged; the program as written is looked at first for one thing only: a condition that is the
+        # status of a helper handed nothing of the documents (inlined, its inner tests would be taken for tests of the generator)
+        try:
+            utilsx.gen1(units, Results(config=r.config))
+        except AnalysisBroken as e:
+            if 'is handed nothing of the documents' in str(e):
+                raise
+        from .specialize import inlined
+        utilsx.gen1(inlined(units), r)
+    _per_config(ctx, R, gen1)
     _per_config(ctx, R, _inl(utilsx.gen2))
     _per_config(ctx, R, utilsx.esc2)
     _per_config(ctx, R, utilsx.esc4)
